@@ -17,6 +17,7 @@ func checkC14(c *Ctx) {
 	c.Rule("C14.R1", "the line is the subject and the polygon the clipping operand of a CLIPLINE Construct; every line of a MultiLineString becomes a contour (full range, identity order)")
 	c.Rule("C14.R2", "each returned piece drops exactly the one trailing vertex that the clipper-result converter appends (strip matches close), for every piece")
 	c.Rule("C14.R3", "in CLIPLINE mode the external clipper does not add the subject's closing segment (last→first) to the sweep")
+	c.Rule("C14.R4", "Clip hands every line to the clipper: a conditional return before the clipper call, or a skipped member, is allowed only under a condition implying that the closed bounding boxes of the line and of the polygon share no point (!Overlaps), and such a return yields an empty result")
 	info := c.P.Pkg("geom").TypesInfo
 	a := &c01{c: c, info: info}
 	for _, tn := range []string{"LineString", "MultiLineString"} {
@@ -88,6 +89,8 @@ func checkC14(c *Ctx) {
 		} else {
 			c.OK("C14.R1", name, fd.Pos(), "line(s) → subject contours, parameter → clipping operand, CLIPLINE")
 		}
+		// --- R4
+		c14prefilters(c, info, sc, fd, name, recv, param, opCall)
 		// --- R2
 		msg = c14strip(info, sc, fd, result)
 		if msg != "" {
@@ -129,6 +132,181 @@ func checkC14(c *Ctx) {
 	c.Floor("C14.R1", 2)
 	c.Floor("C14.R2", 3)
 	c.Floor("C14.R3", 1)
+	c.Floor("C14.R4", 2)
+}
+
+// c14prefilters: conditional exits in a Clip method ahead of / around the clipper call.
+func c14prefilters(c *Ctx, info *types.Info, sc *fnScope, fd *ast.FuncDecl, name string, recv, param types.Object, opCall *ast.CallExpr) {
+	cons := name + "#prefilters"
+	limit := fd.End()
+	if opCall != nil {
+		limit = opCall.Pos()
+	}
+	// which side does a Bounds-typed expression describe? 1 = line (receiver or one of its members), 2 = polygon parameter
+	var side func(e ast.Expr, depth int) int
+	side = func(e ast.Expr, depth int) int {
+		e = unparen(e)
+		if depth > 4 {
+			return 0
+		}
+		if call, ok := e.(*ast.CallExpr); ok {
+			if sel, ok := unparen(call.Fun).(*ast.SelectorExpr); ok && sel.Sel.Name == "Bounds" && len(call.Args) == 0 {
+				x := unparen(sel.X)
+				if o := objOf(info, x); o != nil {
+					if o == param {
+						return 2
+					}
+					if o == recv {
+						return 1
+					}
+					// a member of the receiver: range value over recv, or recv[i]
+					for _, d := range sc.defs[o] {
+						if d == nil {
+							continue
+						}
+						if ix, ok := unparen(d).(*ast.IndexExpr); ok && objOf(info, ix.X) == recv {
+							return 1
+						}
+					}
+					isMember := false
+					ast.Inspect(fd.Body, func(n ast.Node) bool {
+						if rs, ok := n.(*ast.RangeStmt); ok && rs.Value != nil && objOf(info, rs.Value) == o && objOf(info, rs.X) == recv {
+							isMember = true
+						}
+						return true
+					})
+					if isMember {
+						return 1
+					}
+				}
+				if ix, ok := x.(*ast.IndexExpr); ok && objOf(info, ix.X) == recv {
+					return 1
+				}
+			}
+			return 0
+		}
+		if o := objOf(info, e); o != nil {
+			ds := sc.defs[o]
+			if len(ds) == 1 && ds[0] != nil {
+				return side(ds[0], depth+1)
+			}
+		}
+		return 0
+	}
+	disjoint := func(at condAtom) bool {
+		if at.Truth {
+			return false
+		}
+		call, ok := unparen(at.E).(*ast.CallExpr)
+		if !ok || len(call.Args) != 1 {
+			return false
+		}
+		f := callee(info, call)
+		if f == nil || f != c.P.Method("geom", "Bounds", "Overlaps") {
+			return false
+		}
+		sel, ok := unparen(call.Fun).(*ast.SelectorExpr)
+		if !ok {
+			return false
+		}
+		l, r := side(sel.X, 0), side(call.Args[0], 0)
+		return (l == 1 && r == 2) || (l == 2 && r == 1)
+	}
+	hasExit := func(n ast.Node) (ast.Node, bool) {
+		var ex ast.Node
+		if n == nil {
+			return nil, false
+		}
+		ast.Inspect(n, func(m ast.Node) bool {
+			if ex != nil {
+				return false
+			}
+			switch x := m.(type) {
+			case *ast.FuncLit:
+				return false
+			case *ast.ReturnStmt:
+				ex = x
+			case *ast.BranchStmt:
+				if x.Tok == token.CONTINUE || x.Tok == token.BREAK || x.Tok == token.GOTO {
+					ex = x
+				}
+			}
+			return true
+		})
+		return ex, ex != nil
+	}
+	emptyResult := func(r *ast.ReturnStmt) bool {
+		if len(r.Results) != 1 {
+			return false
+		}
+		e := unparen(r.Results[0])
+		if tv, ok := info.Types[e]; ok && tv.IsNil() {
+			return true
+		}
+		switch x := e.(type) {
+		case *ast.CompositeLit:
+			return len(x.Elts) == 0
+		case *ast.CallExpr:
+			if builtinName(info, x) == "make" && len(x.Args) == 2 {
+				k, ok := constInt(info, x.Args[1])
+				return ok && k == 0
+			}
+			// conversion of nil: MultiLineString(nil)
+			if len(x.Args) == 1 {
+				if tv, ok := info.Types[x.Fun]; ok && tv.IsType() {
+					if tv2, ok := info.Types[x.Args[0]]; ok && tv2.IsNil() {
+						return true
+					}
+				}
+			}
+		}
+		return false
+	}
+	n, bad := 0, false
+	ast.Inspect(fd.Body, func(nd ast.Node) bool {
+		if _, ok := nd.(*ast.FuncLit); ok {
+			return false
+		}
+		is, ok := nd.(*ast.IfStmt)
+		if !ok || is.Pos() >= limit || bad {
+			return true
+		}
+		for _, br := range []struct {
+			body  ast.Node
+			truth bool
+		}{{is.Body, true}, {is.Else, false}} {
+			if br.body == nil {
+				continue
+			}
+			if _, isIf := br.body.(*ast.IfStmt); isIf {
+				continue // else-if: visited on its own
+			}
+			ex, has := hasExit(br.body)
+			if !has {
+				continue
+			}
+			n++
+			just := false
+			for _, at := range conjuncts(is.Cond, br.truth) {
+				if disjoint(at) {
+					just = true
+				}
+			}
+			if !just {
+				bad = true
+				c.Bad("C14.R4", cons, is.Pos(), "`%s` under `if %s` bypasses the clipper on a condition that does not imply the line misses the polygon (only disjoint closed bounding boxes do; Bounds.Within of a non-rectangle tests two corners, and Bounds.Intersection is nil for the zero-area box of an axis-parallel line)", src(ex), src(is.Cond))
+				return true
+			}
+			if r, ok := ex.(*ast.ReturnStmt); ok && !emptyResult(r) {
+				bad = true
+				c.Bad("C14.R4", cons, r.Pos(), "`%s`: when the boxes are disjoint the clip is empty, but a non-empty value is returned", src(r))
+			}
+		}
+		return true
+	})
+	if !bad {
+		c.OK("C14.R4", cons, fd.Pos(), "%d conditional exits ahead of the clipper call, all implied by disjoint closed boxes", n)
+	}
 }
 
 func c14closer(c *Ctx, info *types.Info, f *types.Func) {
